@@ -14,7 +14,16 @@ Streams (model `Wpull.Decomp` vs the real code of the checkout under test):
            body kept (file=BytesIO), discarded (file=None, as
            Session.download(file=None) does) and raw=True (no decoding, for
            contrast); the pieces are whatever the real reads returned
-The last three are lock-step co-simulations: `zlib.decompressobj` inside
+  seq      ONE Stream object, 2-3 responses in a row at the stream-function
+           level: every ordered pair of {gzip, zlib-deflate, raw-deflate,
+           no Content-Encoding, 'identity', unknown coding} x splits; each body
+           must decode as through a fresh Stream (decoder state is per response)
+  e2e-seq  the same through read_response + read_body over ONE connection
+           (Content-Length / chunked framing, lock-step delivery)
+  bomb     (family of body/e2e) 150 kB - 1 MB of zeros / repetitive text /
+           repeated random words, cut so that a NON-final piece of 100 / 1460 /
+           4096 bytes inflates to far more than 64 KiB
+The body / e2e / seq streams are lock-step co-simulations: `zlib.decompressobj` inside
 wpull.decompression is wrapped so that every call on the underlying zlib
 object and its result is logged; the model replays the wrapper logic over
 that log and must make the same calls in the same order, produce the same
@@ -48,6 +57,8 @@ RULE = ('payloads (empty / tiny / text / random / runs, 0..70 kB) x compression 
         'and mismatched header/body) x splits (whole, every 2-piece split, 1-byte first piece + every second cut, '
         'all single bytes, random) plus truncation at every cut position and byte corruption / insertion / deletion; '
         'e2e: framing (close, length, chunked, bad length, ignore_length) x body kept / discarded (file=None) / raw; '
+        'seq: all 36 ordered pairs of codings (x3) + random triples through one Stream object, function level and over one connection; '
+        'bomb: highly compressible 150 kB-1 MB payloads where a non-final piece inflates past 64 KiB; '
         'non-trivial = a decoder object is selected and the body is not empty; distinct by (coding, body, pieces, level)')
 TRUSTED = ['zlib (zlib.decompressobj): opaque streaming inflater; its chunking invariance (same total output, eof flag and '
            'error/no-error for every split of one input) is the hypothesis of the theorems and is monitored on every logged run',
@@ -834,6 +845,278 @@ def family_e2e(ctx, rng, n):
     stream_e2e(ctx, cases)
 
 
+# ------------------------------------------------------------------ sequences of responses through ONE Stream
+# kind -> (Content-Encoding value or None, body format, coding letter for the reference)
+SEQ_KINDS = {'gzip': ('gzip', 'gzip', 'g'), 'zlib': ('deflate', 'zlib', 'd'), 'raw': ('deflate', 'raw', 'd'),
+             'none': (None, 'plain', 'i'), 'identity': ('identity', 'plain', 'i'), 'unknown': ('br', 'plain', 'i')}
+
+
+def enc_opt(v):
+    return 'None' if v is None else '=' + enc(v)
+
+
+def real_seq(responses):
+    """Stream-level functions, ONE Stream object, several responses.  responses: [(header value|None, pieces)].
+    -> [(res, outs, log, odd)]; each response has its own zlib log."""
+    from wpull.protocol.http.stream import Stream
+    from wpull.protocol.http.request import Response
+    st = Stream(None)
+    results = []
+    for hdr, pieces in responses:
+        with logged_zlib() as z:
+            resp = Response(200, 'OK')
+            if hdr is not None:
+                resp.fields['Content-Encoding'] = hdr
+            outs = []
+            try:
+                st._setup_decompressor(resp)
+                for p in pieces:
+                    outs.append(bytes(st._decompress_data(p)))
+                outs.append(bytes(st._flush_decompressor()))
+                res = ('ok', b''.join(outs))
+            except Exception as e:  # noqa
+                res = ('exc', classify_exc(e))
+        results.append((res, outs, z.log, z.odd))
+    return results
+
+
+def check_seq_results(ctx, stream, seq, results, reps, where):
+    """seq: [(kind, hdr, coding, body, cuts, meta)], results: [(res, outs|None, log, odd)]"""
+    kinds = [x[0] for x in seq]
+    for k, ((kind, hdr, coding, body, cuts, meta), (res, outs, log, odd), rep) in enumerate(zip(seq, results, reps)):
+        case = {'stream': stream, 'seq': [{'kind': x[0], 'header': x[1], 'coding': x[2], 'body': x[3], 'cuts': list(x[4]),
+                                           'meta': x[5]} for x in seq], 'index': k}
+        ctx.case((stream, tuple((x[0], x[3], tuple(x[4])) for x in seq[:k + 1])), nontrivial=k > 0,
+                 tags=['%s:pos=%d' % (stream, k), '%s:%s' % (stream, '>'.join(kinds[max(0, k - 1):k + 1])),
+                       '%s:result=%s' % (stream, res[0] if res[0] == 'ok' else res[1])])
+        if outs is not None:
+            real = '%s %s %s' % (fmt_res(res), enc_pieces(outs), 0)
+            model = rep
+        else:
+            rp = rep.split(' ')
+            model = ' '.join(rp[:2]) + ' ' + rp[-1]
+            real = fmt_res(res) + ' 0'
+        if real != model:
+            ctx.disagree(stream, case, rep[:400], real[:400])
+        if odd:
+            ctx.disagree(stream + '-zlib-api', case, 'plain calls', odd[0])
+        monitor_zlib(ctx, log, case)
+        # the property, independent of the model: this body alone through a fresh Stream, and one-shot zlib
+        fresh = real_body(coding, [body] if body else [], header=hdr)[0]
+        ref = reference(coding, body)
+        if res != fresh and not (ref[0] == 'err' and res[0] == 'exc' and fresh[0] == 'exc'):
+            ctx.fail('depends-on-previous-response', where, case,
+                     'response %d (%s after %s) gives %s, the same body through a fresh Stream gives %s'
+                     % (k, kind, '>'.join(kinds[:k]) or 'nothing', fmt_res(res)[:100], fmt_res(fresh)[:100]))
+            continue
+        oracle(ctx, case, coding, body, res, fresh, ref, meta, where=where)
+
+
+def build_seq(rng, kinds, last_mut=False):
+    seq = []
+    for j, kind in enumerate(kinds):
+        hdr, fmt, coding = SEQ_KINDS[kind]
+        payload = gen_payload(rng, rng.choice([1, 2, 5, 13, 40, 100, 300]))
+        if kind == 'unknown' and rng.random() < 0.5:
+            payload = rng.choice([b'\x1f\x8b', b'\x78\x9c']) + payload
+        body, desc = make_body(rng, fmt, payload)
+        meta = {'fmt': fmt, 'enc': desc, 'mut': 'valid'}
+        if last_mut and j == len(kinds) - 1 and fmt != 'plain' and body:
+            if rng.random() < 0.5:
+                body, meta['mut'] = body[:rng.randrange(1, len(body))], 'truncated'
+            else:
+                body, meta['mut'] = mutate(rng, body)
+        n = len(body)
+        style = rng.choice(['whole', 'first1', 'bytes', 'random'])
+        cuts = {'whole': [], 'first1': [1], 'bytes': list(range(1, n)),
+                'random': fakenet.random_cuts(rng, n, rng.choice(['one', 'few', 'many']))}[style]
+        seq.append((kind, hdr, coding, body, [c for c in cuts if 0 < c < n], meta))
+    return seq
+
+
+def stream_seq(ctx, seqs):
+    rows, reqs = [], []
+    for seq in seqs:
+        responses = [(hdr, fakenet.segment(body, cuts)) for (_k, hdr, _c, body, cuts, _m) in seq]
+        results = real_seq(responses)
+        rows.append((seq, results))
+        for (hdr, pieces), (res, outs, log, odd) in zip(responses, results):
+            reqs.append('decomp resp %s %s %s' % (enc_opt(hdr), enc_pieces(pieces), enc_log(log)))
+    reps = ctx.model.ask(reqs)
+    i = 0
+    for seq, results in rows:
+        check_seq_results(ctx, 'seq', seq, results, reps[i:i + len(seq)], 'sequence')
+        i += len(seq)
+    if rows:
+        ctx.sample({'stream': 'seq', 'kinds': [x[0] for x in rows[0][0]], 'bodies': [x[3] for x in rows[0][0]]})
+
+
+def real_e2e_seq(items):
+    """ONE connection, ONE Stream, several responses read one after the other (lock-step: the next response is
+    sent only after the previous one was read, as a client that sends its next request would see it).
+    items: [(header value|None, strategy, wire, cuts, regions)] -> [(res, pieces, log, odd)]"""
+    from wpull.protocol.http.stream import Stream
+    from wpull.protocol.http.request import Request
+    from wpull.network.connection import Connection
+    results = []
+
+    async def go():
+        net = fakenet.FakeNet()
+        net.default = _Passive
+        with net:
+            conn = Connection(('10.0.0.1', 80), 'h')
+            await compat._ensure(conn.connect())
+            fc = net.conns[-1]
+            stream = Stream(conn, keep_alive=True)
+            request = Request('http://h/')
+            for n, (hdr, strategy, wire, cuts, regions) in enumerate(items):
+                head = b'HTTP/1.1 200 OK\r\n'
+                if hdr is not None:
+                    head += b'Content-Encoding: ' + hdr.encode('latin-1') + b'\r\n'
+                if strategy == 'length':
+                    head += b'Content-Length: %d\r\n' % len(wire)
+                elif strategy == 'chunked':
+                    head += b'Transfer-Encoding: chunked\r\n'
+                head += b'\r\n'
+                out = io.BytesIO()
+                seen = []
+                listener = lambda d, seen=seen: seen.append(bytes(d))  # noqa: E731
+
+                async def client():
+                    response = await compat._ensure(stream.read_response())
+                    stream.data_event_dispatcher.add_read_listener(listener)
+                    try:
+                        await compat._ensure(stream.read_body(request, response, file=out))
+                    finally:
+                        stream.data_event_dispatcher.remove_read_listener(listener)
+
+                last = n == len(items) - 1
+                with logged_zlib() as z:
+                    feeder = asyncio.ensure_future(fc.send_segments([head] + fakenet.segment(wire, cuts),
+                                                                    eof=(last or strategy == 'close'), yields=2))
+                    task = asyncio.ensure_future(client())
+                    done = await fakenet.settle(task, [feeder])
+                    if not done:
+                        task.cancel()
+                        res = ('stalled',)
+                    else:
+                        try:
+                            task.result()
+                            res = ('ok', out.getvalue())
+                        except Exception as e:  # noqa
+                            res = ('exc', classify_exc(e))
+                if strategy == 'chunked':
+                    pieces, off = [], 0
+                    for item in seen:
+                        for (a, b) in regions:
+                            if a <= off and off + len(item) <= b and item:
+                                pieces.append(item)
+                                break
+                        off += len(item)
+                else:
+                    pieces = [x for x in seen if x]
+                results.append((res, pieces, z.log, z.odd))
+                if res[0] != 'ok':
+                    break
+
+    compat.run(go())
+    return results
+
+
+def stream_e2e_seq(ctx, seqs, seed):
+    rows, reqs = [], []
+    for n, seq in enumerate(seqs):
+        rng = ctx.subrng('e2e-seq/%s/%d' % (seed, n))
+        items = []
+        for j, (kind, hdr, coding, body, cuts, meta) in enumerate(seq):
+            strategy = rng.choice(['length', 'chunked'] + (['close'] if j == len(seq) - 1 else []))
+            if strategy == 'chunked':
+                wire, regions = chunked_frame(rng, body)
+            else:
+                wire, regions = body, None
+            wcuts = fakenet.random_cuts(rng, len(wire), rng.choice(['none', 'one', 'few', 'many', 'bytes']))
+            items.append((hdr, strategy, wire, wcuts, regions))
+        results = real_e2e_seq(items)
+        seq = seq[:len(results)]
+        if any(r[0][0] == 'stalled' for r in results):
+            ctx.disagree('e2e-seq', {'stream': 'e2e-seq', 'kinds': [x[0] for x in seq]}, 'completes', 'stalled')
+            continue
+        rows.append((seq, results))
+        for (kind, hdr, coding, body, cuts, meta), (res, pieces, log, odd) in zip(seq, results):
+            if (b''.join(pieces) != body) if res[0] == 'ok' else (not body.startswith(b''.join(pieces))):
+                raise Infra('e2e-seq harness: the pieces observed are not the body')
+            reqs.append('decomp resp %s %s %s' % (enc_opt(hdr), enc_pieces(pieces), enc_log(log)))
+    reps = ctx.model.ask(reqs)
+    i = 0
+    for seq, results in rows:
+        check_seq_results(ctx, 'e2e-seq', seq, [(res, None, log, odd) for (res, _p, log, odd) in results],
+                          reps[i:i + len(seq)], 'read_body_sequence')
+        i += len(seq)
+
+
+def family_seq(ctx, rng, n_random):
+    kinds = list(SEQ_KINDS)
+    seqs = []
+    for a in kinds:                       # every ordered pair of codings, three times with different bodies/splits
+        for b in kinds:
+            for _ in range(3):
+                seqs.append(build_seq(rng, [a, b]))
+    for _ in range(n_random):
+        ks = [rng.choice(kinds) for _ in range(rng.choice([2, 3, 3]))]
+        seqs.append(build_seq(rng, ks, last_mut=rng.random() < 0.3))
+    stream_seq(ctx, seqs)
+    e2e = [build_seq(rng, [a, b]) for a in kinds for b in kinds]
+    e2e += [build_seq(rng, [rng.choice(kinds) for _ in range(3)], last_mut=rng.random() < 0.3) for _ in range(n_random // 2)]
+    stream_e2e_seq(ctx, e2e, ctx.seed)
+
+
+# ------------------------------------------------------------------ highly compressible bodies (one piece inflates past 64 KiB)
+def gen_compressible(rng, size, kind):
+    if kind == 'zeros':
+        return bytes(size)
+    if kind == 'text':
+        unit = b'<li><a href="/page/%d">wpull wpull wpull</a></li>\n'
+        out = b''.join(unit % (i % 7) for i in range(size // len(unit % 0) + 1))
+        return out[:size]
+    words = [bytes(rng.randrange(256) for _ in range(24)) for _ in range(6)]     # ratio ~ 20-40 : 1
+    out = bytearray()
+    while len(out) < size:
+        out += rng.choice(words)
+    return bytes(out[:size])
+
+
+def family_bomb(ctx, rng, batch, n, max_size):
+    """A non-final piece of the body inflates to far more than 64 KiB."""
+    for i in range(n):
+        fmt, coding = [('gzip', 'g'), ('gzip', 'g'), ('zlib', 'd'), ('raw', 'd')][i % 4]
+        kind = ['zeros', 'words', 'text'][i % 3]
+        size = rng.choice([s for s in (150000, 300000, 600000, 1000000) if s <= max_size])
+        payload = gen_compressible(rng, size, kind)
+        wbits = {'gzip': 31, 'zlib': 15, 'raw': -15}[fmt]
+        c = zlib.compressobj(rng.choice([1, 6, 9]), zlib.DEFLATED, wbits)
+        body = c.compress(payload) + c.flush()
+        nb = len(body)
+        cutsets = [[]]
+        for step in (100, 1460, 4096):
+            if nb > step:
+                cutsets.append(list(range(step, nb, step)))
+        cutsets.append([c for c in (1, nb // 2) if 0 < c < nb])
+        meta = {'fmt': fmt, 'enc': 'bomb %s %d->%d' % (kind, size, nb), 'mut': 'valid'}
+        # how much the largest non-final piece inflates to (for the evidence)
+        worst = 0
+        for cs in cutsets:
+            o = zlib.decompressobj(wbits)
+            for pc in fakenet.segment(body, cs)[:-1]:
+                worst = max(worst, len(o.decompress(pc)))
+        ctx.tag('bomb:nonfinal-piece>64KiB' if worst > 65536 else 'bomb:small')
+        check_case(ctx, batch, coding, body, cutsets, meta)
+        batch.flush()
+        if fmt == 'gzip' or i % 4 == 2:
+            hdr = {'g': 'gzip', 'd': 'deflate'}[coding]
+            stream_e2e(ctx, [(coding, hdr, body, st, meta, 'bomb/%d/%d/%s' % (ctx.seed, i, st), fm)
+                             for st in ('close', 'length', 'chunked') for fm in ('keep', 'none')])
+
+
 # ------------------------------------------------------------------ entry points
 def load_corpus(ctx):
     out = []
@@ -867,6 +1150,13 @@ def replay(ctx, case, kind=None, where=None):
     elif s == 'e2e':
         stream_e2e(ctx, [(case['coding'], case['header'], case['body'], case['strategy'], case.get('meta', {}), case['seed'],
                           case.get('filemode', 'keep'))])
+    elif s in ('seq', 'e2e-seq'):
+        seq = [(x['kind'], x['header'], x['coding'], x['body'], x['cuts'], x.get('meta', {})) for x in case['seq']]
+        if s == 'seq':
+            stream_seq(ctx, [seq])
+        else:
+            for n in range(8):           # the framing / segmentation is drawn from the seed
+                stream_e2e_seq(ctx, [seq], 'replay/%d' % n)
     elif s == 'hdr':
         stream_hdr(ctx, [case['data']])
     elif s == 'coding':
@@ -894,6 +1184,8 @@ def run(ctx):
     family_large(ctx, rng, batch, ctx.scale(20, 400))
     family_wrapper(ctx, rng, batch, ctx.scale(150, 4000))
     family_e2e(ctx, rng, ctx.scale(200, 4000))
+    family_seq(ctx, rng, ctx.scale(60, 1500))
+    family_bomb(ctx, rng, batch, ctx.scale(6, 20), 400000 if not thorough else 1000000)
 
 
 def search(ctx):
@@ -904,3 +1196,5 @@ def search(ctx):
     family_truncated(ctx, rng, batch, ctx.scale(3, 10))
     family_corrupt(ctx, rng, batch, ctx.scale(100, 300))
     family_e2e(ctx, rng, ctx.scale(10, 30))
+    family_seq(ctx, rng, ctx.scale(5, 10))
+    family_bomb(ctx, rng, batch, max(4, ctx.scale(1, 1) // 2), 600000)
